@@ -2173,7 +2173,9 @@ impl<T: Storage> Raft<T> {
                     return Ok(());
                 }
 
-                if self.prs().is_singleton() {
+                // The shortcut is only valid if the single voter is this node: a leader that
+                // has been removed from the configuration must still confirm its leadership.
+                if self.prs().is_singleton() && self.promotable {
                     let read_index = self.raft_log.committed;
                     if let Some(m) = self.handle_ready_read_index(m, read_index) {
                         self.r.send(m, &mut self.msgs);
